@@ -10,23 +10,31 @@
      is_prime         math/big ProbablyPrime(20)
      split pq         math.SplitPQ (Pollard rho on a clock-seeded math/rand stream): Some (p1, p2), or None when the
                       loop never exits.  A model of the loop itself with the stream as an argument is Handshake/SplitPQ.v.
-     foreign_ok bs    tl.DecodeUnknownObject succeeds on a reply whose constructor is none of the six key-exchange
-                      answers (the generic decoder is property C15's subject).  rpc_error replies are outside the model.
+   A reply whose constructor is none of the six key-exchange answers either decodes to some other object (the request
+   wrappers refuse its type) or does not decode (the read loop hands the error to the waiting request): an error both
+   ways, so the generic decoder (property C15's subject) needs no model here.  rpc_error replies are outside the model.
 
    The three draws of the client are the bytes crypto/rand delivered: 16 (nonce), 32 (new_nonce), 256 (the DH exponent:
    crypto/rand.Int(2^2048) reads exactly 256 bytes and masks nothing); [d_pad n] are the n random padding bytes
    EncryptMessageWithTempKeys takes from math/rand.
 
-   The server is an ENVIRONMENT: a function from the plain messages sent so far to the next plain reply body (None: no
-   reply arrives).  A script of replies is the special case that ignores the history; a conformant server
-   (Handshake/Server.v) is another instance.  Replies are TL bodies of well-formed unencrypted envelopes.
+   The server is an ENVIRONMENT: a function from the plain messages sent so far to what arrives next:
+     Some (Reply body)      a transport frame holding an unencrypted envelope with this TL body (any bytes)
+     Some TransportError    the 4-byte transport error frame (e.g. -404), or any frame that is no readable envelope
+     Some Closed            the server closes the connection
+     None                   the server stays silent for ever
+   A script is the special case that ignores the history; a conformant server (Handshake/Server.v) is another instance.
 
    Outcome: the ordered effects and how makeAuthKey ended:
      Success key hash salt     returned nil (session saved)
      HFailed                    returned an error
      HPanicked                  a panic inside makeAuthKey
-     HStalled                   makeAuthKey never returns: no reply arrives - none sent, or the reply does not decode so that
-                               the read loop fails instead of delivering it (property C16's subject) -, or SplitPQ loops for ever. *)
+     HStalled                   makeAuthKey never returns: the server stays silent for ever (the client has no timeout), or
+                               SplitPQ loops for ever.  NOTHING that arrives can cause it: a reply that cannot be read or
+                               decoded, a transport error code and a closed connection all reach the waiting request as an
+                               error (mtproto.go failKeyExchange, patch 0005).
+   After a run that did not succeed the client holds no key and no salt (makeAuthKey clears what it set before the last
+   checks, patch 0006): [Stopped] carries nothing. *)
 From Coq Require Import ZArith NArith List Lia Bool.
 From MTV Require Import Base.Bytes Base.Outcome Prim.Xor Crypto.Ige Crypto.IgeMem Crypto.TempKeys Crypto.Envelope
   TL.Types Handshake.Bytes Handshake.Objects.
@@ -68,8 +76,9 @@ Definition guard (b : bool) : W unit := if b then ret tt else halt HFailed.
 Notation "'perform' x <- a ;; b" := (wbind a (fun x => b))
   (at level 200, x name, a at level 100, b at level 200, right associativity).
 
-Definition env : Type := list bytes -> option bytes.
-Definition script_env (replies : list bytes) : env :=
+Inductive arrival := Reply (body : bytes) | TransportError | Closed.
+Definition env : Type := list bytes -> option arrival.
+Definition script_env (replies : list arrival) : env :=
   fun hist => nth_error replies (length hist - 1).
 
 Section Client.
@@ -78,7 +87,6 @@ Variables E D : bytes -> bytes -> bytes.
 Variable modexp : Z -> Z -> Z -> Z.
 Variable is_prime : N -> bool.
 Variable split : N -> option (N * N).
-Variable foreign_ok : bytes -> bool.
 
 (* ---- aes.go TryDecryptMessageWithTempKeys: DecryptMessageWithTempKeys with every refusal an error ---- *)
 Fixpoint try_cuts_e (fuel j : nat) (hash m : bytes) : outcome bytes :=
@@ -123,11 +131,13 @@ Definition request (hist : list bytes) (frame : bytes) (e : env) : W (reply * li
   perform _ <- emit (SendPlain frame) ;;
   match e (hist ++ [frame]) with
   | None => halt HStalled
-  | Some r =>
+  | Some TransportError => halt HFailed
+  | Some Closed => halt HFailed
+  | Some (Reply r) =>
       match dec_reply r with
       | DObj o => ret (o, hist ++ [frame])
-      | DForeign => if foreign_ok r then halt HFailed else halt HStalled
-      | DFail => halt HStalled
+      | DForeign => halt HFailed     (* another object: wrong type for the wrapper; or undecodable: error handed over *)
+      | DFail => halt HFailed        (* malformed body of a key-exchange constructor: error handed over *)
       end
   end.
 
